@@ -56,19 +56,32 @@ type fcase struct {
 	MaxSize   uint32 `json:"max_message_size"`
 	Oversize  string `json:"oversize,omitempty"`
 	Seed      int64  `json:"gen_seed"`
+	Filter    bool   `json:"request_monitor_drops_some,omitempty"`
+}
+
+// dropped is the deterministic predicate of the dropping request monitor used in the filter cases: what
+// the handler must then see is the sent sequence minus the messages satisfying it — whatever the cuts.
+func dropped(code uint8, tok []byte) bool {
+	s := int(code) + len(tok)
+	for _, b := range tok {
+		s += int(b)
+	}
+	return s%3 == 0
 }
 
 type conn struct {
-	sc      *sim.ScriptConn
-	cc      *tcpclient.Conn
-	mu      sync.Mutex
-	got     []delivered
-	signals []uint8
-	errs    []string
+	sc       *sim.ScriptConn
+	cc       *tcpclient.Conn
+	mu       sync.Mutex
+	got      []delivered
+	signals  []uint8
+	errs     []string
+	nDropped int
 }
 
-func newConn(cache int, maxSize uint32) (*conn, error) {
+func newConn(cache int, maxSize uint32, filter ...bool) (*conn, error) {
 	c := &conn{sc: sim.NewScriptConn()}
+	flt := len(filter) > 0 && filter[0]
 	cc, err := sim.NewTCPConn(c.sc, sim.TCPOpts{
 		Errors: func(err error) { c.mu.Lock(); c.errs = append(c.errs, err.Error()); c.mu.Unlock() },
 		Mutate: func(cfg *tcpclient.Config) {
@@ -78,6 +91,17 @@ func newConn(cache int, maxSize uint32) (*conn, error) {
 			// framing only: with block-wise enabled a generated CSM carrying the Block-Wise-Transfer option
 			// would switch the block-wise layer on, which (correctly) keeps fragments from the handler
 			cfg.BlockwiseEnable = false
+			if flt {
+				cfg.RequestMonitor = func(_ *tcpclient.Conn, r *pool.Message) (bool, error) {
+					d := dropped(uint8(r.Code()), r.Token())
+					if d {
+						c.mu.Lock()
+						c.nDropped++
+						c.mu.Unlock()
+					}
+					return d, nil
+				}
+			}
 		},
 		Handler: func(w *responsewriter.ResponseWriter[*tcpclient.Conn], r *pool.Message) {
 			body, _ := r.ReadBody()
@@ -119,7 +143,7 @@ func split(stream []byte, cuts []int) [][]byte {
 
 // runStream feeds the stream in the given chunks and checks the logs against want.
 func runStream(rec *vr.Rec, fc fcase, stream []byte, cuts []int, want []ref.Msg) {
-	c, err := newConn(fc.Cache, fc.MaxSize)
+	c, err := newConn(fc.Cache, fc.MaxSize, fc.Filter)
 	if err != nil {
 		rec.Violation("C07/harness/tcp-client", err.Error(), fc)
 		return
@@ -127,7 +151,12 @@ func runStream(rec *vr.Rec, fc fcase, stream []byte, cuts []int, want []ref.Msg)
 	defer c.cc.Close()
 	var wantMsgs []delivered
 	var wantSig []uint8
+	wantDropped := 0
 	for _, m := range want {
+		if fc.Filter && dropped(m.Code, m.Token) {
+			wantDropped++
+			continue
+		}
 		if isSignal(m.Code) {
 			wantSig = append(wantSig, m.Code)
 		} else {
@@ -140,7 +169,10 @@ func runStream(rec *vr.Rec, fc fcase, stream []byte, cuts []int, want []ref.Msg)
 	rec.Count("chunks_fed", int64(len(cuts)+1))
 	ok := sim.WaitFor(20*time.Second, func() bool {
 		g, s := c.counts()
-		return (g >= len(wantMsgs) && s >= len(wantSig) && c.sc.Pending() == 0) || c.cc.Context().Err() != nil
+		c.mu.Lock()
+		nd := c.nDropped
+		c.mu.Unlock()
+		return (g >= len(wantMsgs) && s >= len(wantSig) && nd >= wantDropped && c.sc.Pending() == 0) || c.cc.Context().Err() != nil
 	})
 	// allow an extra (duplicated) delivery to show up
 	time.Sleep(150 * time.Microsecond)
@@ -148,6 +180,7 @@ func runStream(rec *vr.Rec, fc fcase, stream []byte, cuts []int, want []ref.Msg)
 	got := append([]delivered(nil), c.got...)
 	sig := append([]uint8(nil), c.signals...)
 	errs := append([]string(nil), c.errs...)
+	nDropped := c.nDropped
 	c.mu.Unlock()
 	if c.cc.Context().Err() != nil {
 		rec.Violation("C07/closed-on-valid-stream", fmt.Sprintf("connection closed while a valid stream was fed; errors %v; delivered %d of %d", errs, len(got), len(wantMsgs)), fc)
@@ -178,6 +211,14 @@ func runStream(rec *vr.Rec, fc fcase, stream []byte, cuts []int, want []ref.Msg)
 			rec.Violation("C07/signal-order", fmt.Sprintf("position %d: %d vs %d", i, sig[i], wantSig[i]), fc)
 			return
 		}
+	}
+	if nDropped != wantDropped {
+		rec.Violation("C07/request-monitor-saw-wrong-count", fmt.Sprintf("the dropping request monitor dropped %d messages, %d of the sent ones satisfy its predicate", nDropped, wantDropped), fc)
+		return
+	}
+	if fc.Filter {
+		rec.Count("filter_cases", 1)
+		rec.Count("messages_dropped_by_request_monitor", int64(wantDropped))
 	}
 	rec.Count("messages_delivered_checked", int64(len(wantMsgs)))
 	rec.Count("signals_checked", int64(len(wantSig)))
@@ -250,7 +291,7 @@ func tiny(rnd *rand.Rand) ref.Msg {
 }
 
 func TestRun(t *testing.T) {
-	rec := vr.New("C07", "message sequences (1..30 messages: every stream length class 0-12/13-268/269-65804/65805+, token lengths 0..8, ordinary codes and the signalling codes CSM/Ping/Pong/Release/Abort) x segmentations (ALL 2^(n-1) cut sets for streams of n <= 12 bytes (quick) / 16 (thorough); byte-wise; single chunk; a cut at every offset; cuts inside and around every frame header; PRNG cuts) x read-buffer sizes {1,2,3,7,64,2048}; oversize frames (declared length max+1.., 32-bit extended lengths near 2^32) fed header-only and with following frames. Distinct = distinct (stream, cut set, buffer size).")
+	rec := vr.New("C07", "message sequences (1..30 messages: every stream length class 0-12/13-268/269-65804/65805+, token lengths 0..8, ordinary codes and the signalling codes CSM/Ping/Pong/Release/Abort) x segmentations (ALL 2^(n-1) cut sets for streams of n <= 12 bytes (quick) / 16 (thorough); byte-wise; single chunk; a cut at every offset; cuts inside and around every frame header; PRNG cuts) x read-buffer sizes {1,2,3,7,64,2048}; with and without a request monitor that drops a deterministic subset (handler must see the rest, monitor must see all); oversize frames (declared length max+1.., 32-bit extended lengths near 2^32) fed header-only and with following frames. Distinct = distinct (stream, cut set, buffer size).")
 	defer rec.Flush(true)
 	seed := vr.Seed()
 	caches := []int{1, 2, 3, 7, 64, 2048}
@@ -290,9 +331,9 @@ func TestRun(t *testing.T) {
 						cuts = append(cuts, b+1)
 					}
 				}
-				fc := fcase{Msgs: len(want2), StreamLen: n, Cuts: cuts, CutMode: "all-cut-sets", Cache: cache, MaxSize: 64 * 1024}
+				fc := fcase{Msgs: len(want2), StreamLen: n, Cuts: cuts, CutMode: "all-cut-sets", Cache: cache, MaxSize: 64 * 1024, Filter: s%2 == 1}
 				runStream(rec, fc, stream2, cuts, want2)
-				rec.Eval(fmt.Sprintf("cs|%x|%d|%d", stream2, mask, cache))
+				rec.Eval(fmt.Sprintf("cs|%x|%d|%d|%v", stream2, mask, cache, fc.Filter))
 				rec.Count("cut_sets_enumerated", 1)
 			})
 		}
@@ -398,12 +439,12 @@ func TestRun(t *testing.T) {
 			}
 			for ci, cs := range cutSets {
 				cache := caches[(i+ci)%len(caches)]
-				fc := fcase{Msgs: len(msgs), StreamLen: n, CutMode: mode, Cache: cache, MaxSize: 1 << 20, Seed: gs}
+				fc := fcase{Msgs: len(msgs), StreamLen: n, CutMode: mode, Cache: cache, MaxSize: 1 << 20, Seed: gs, Filter: (i/6)%3 == 2}
 				if len(cs) <= 12 {
 					fc.Cuts = cs
 				}
 				runStream(rec, fc, stream, cs, want)
-				rec.Eval(fmt.Sprintf("long|%d|%s|%d|%d", gs, mode, ci, cache))
+				rec.Eval(fmt.Sprintf("long|%d|%s|%d|%d|%v", gs, mode, ci, cache, fc.Filter))
 				if i < 2 && ci == 0 {
 					rec.Sample(fc)
 				}
